@@ -50,9 +50,11 @@ macro_rules! impl_policy {
                     return (None, false);
                 }
 
-                // no need to go any further if the item is already in the cache
-                if inner.costs.update(&key, cost) {
-                    // an update does not count as an addition, so return false.
+                // The key is already charged. This item is not going to be stored (the store
+                // keeps the resident entry and the value goes to on_reject), so the resident
+                // entry keeps the charge of the write that is actually in the cache.
+                if inner.costs.contains(&key) {
+                    // not an addition, so return false.
                     #[cfg(transparencies_stretto_verif)]
                     crate::verif::emit(|| crate::verif::Event::Add {
                         key,
